@@ -80,9 +80,18 @@ def oracle_structure(case: dict) -> Outcome:
     mask = case.get("mask") or [True] * len(shapes)
     params = []
     base = 0
-    for s in shapes:
+    playout = case.get("playout") or [None] * len(shapes)
+    for pi, s in enumerate(shapes):
         n = math.prod(s)
-        params.append(torch.nn.Parameter(torch.arange(base, base + n, dtype=torch.float64).reshape(s)))
+        t = torch.arange(base, base + n, dtype=torch.float64).reshape(s)
+        perm = playout[pi] if pi < len(playout) else None
+        if perm and len(perm) == len(s) and len(s) >= 2 and (not merge or tuple(rm.merge_dims(s, thr, True)) == tuple(s)):
+            # same values and shape, non-row-major memory layout (channels_last / transposed weights); only where param.view(merged dims) is legal
+            inv = [perm.index(i) for i in range(len(perm))]
+            t = t.permute(*perm).contiguous().permute(*inv)
+            if not t.is_contiguous():
+                out.classes.append("non_row_major_parameter")
+        params.append(torch.nn.Parameter(t))
         base += n
     ok, dist = call_sut(out, "C05.construct", "Distributor(param_group)", lambda: _distributor(params, thr, merge))
     if not ok:
@@ -206,7 +215,8 @@ def strategy_structure():
         k = draw(st.integers(1, 3))
         shapes = [draw(gen.st_shape(mpd, max_order=4, max_numel=2000)) for _ in range(k)]
         glayout = [draw(st.one_of(st.none(), st.permutations(list(range(len(sh)))))) if len(sh) >= 2 else None for sh in shapes]
-        return {"shapes": shapes, "mpd": mpd, "merge": draw(st.booleans()), "mask": [draw(st.booleans()) for _ in range(k)], "glayout": glayout}
+        playout = [draw(st.one_of(st.none(), st.none(), st.permutations(list(range(len(sh)))))) if len(sh) >= 2 else None for sh in shapes]
+        return {"shapes": shapes, "mpd": mpd, "merge": draw(st.booleans()), "mask": [draw(st.booleans()) for _ in range(k)], "glayout": glayout, "playout": playout}
 
     return case()
 
